@@ -25,6 +25,43 @@ def expandTok (out : Bytes) : Tok → Bytes
 /-- the bytes a token list stands for, appended to `out` -/
 def expandFrom (ts : List Tok) (out : Bytes) : Bytes := ts.foldl expandTok out
 
+/-! ### compiled code: the same functions over arrays (`@[csimp]`, proved equal; the list versions above are
+what the theorems talk about, the array versions are what the driver executes) -/
+
+def expandMatchA (off : Nat) : Nat → Array UInt8 → Array UInt8
+  | 0, out => out
+  | n+1, out => expandMatchA off n (out.push (out.getD (out.size - off) 0))
+
+theorem arr_getD (a : Array UInt8) (i : Nat) : a.getD i 0 = a.toList.getD i 0 := by
+  simp [Array.getD, List.getD]
+  split <;> simp_all
+
+theorem expandMatchA_toList (off n : Nat) (out : Array UInt8) :
+    (expandMatchA off n out).toList = expandMatch off n out.toList := by
+  induction n generalizing out with
+  | zero => rfl
+  | succ n ih => simp only [expandMatchA, expandMatch, ih, Array.toList_push, arr_getD, Array.length_toList]
+
+def expandTokA (out : Array UInt8) : Tok → Array UInt8
+  | .lit b => out.push b
+  | .mat off len => expandMatchA off len out
+
+theorem expandTokA_toList (out : Array UInt8) (t : Tok) : (expandTokA out t).toList = expandTok out.toList t := by
+  cases t <;> simp [expandTokA, expandTok, expandMatchA_toList]
+
+def expandFromFast (ts : List Tok) (out : Bytes) : Bytes := (ts.foldl expandTokA out.toArray).toList
+
+theorem foldl_expandTokA (ts : List Tok) (out : Array UInt8) :
+    (ts.foldl expandTokA out).toList = ts.foldl expandTok out.toList := by
+  induction ts generalizing out with
+  | nil => rfl
+  | cons t ts ih => simp only [List.foldl_cons, ih, expandTokA_toList]
+
+@[csimp] theorem expandFrom_eq_fast : @expandFrom = @expandFromFast := by
+  funext ts out
+  simp [expandFrom, expandFromFast, foldl_expandTokA]
+
+
 def expand (ts : List Tok) : Bytes := expandFrom ts []
 
 /-- tag of a match: `len-3` in the low nibble of byte 0 (15 = extended, then a third byte `len-18`),
